@@ -51,7 +51,7 @@ def run(chk):
     tot = {"inputs": 0, "calls": 0, "distinct": 0}
     for s in range(shards):
         p = os.path.join(wd, "t%d.ndjson" % s)
-        out = vlib.run_harness(vh, ["total-run", chk.seed * 1000 + s, per, 200 if s % 2 else 700, p], timeout=7200).stdout
+        out = vlib.run_harness(vh, ["total-run", chk.seed * 1000 + s, per, 200 if s % 2 else 700, p], timeout=600 if quick else 3600).stdout
         summ = json.loads(out.strip().split("\n")[-1])["summary"]
         for k in tot:
             tot[k] += summ.get(k, 0)
